@@ -36,6 +36,7 @@ type acase struct {
 	Fam            string `json:"fam"`
 	Kind           string `json:"kind"`
 	Fmt            string `json:"fmt"`
+	Store          string `json:"store"`
 	KH             string `json:"kh"`
 	VM             string `json:"vm"`
 	Exp            int    `json:"exp"`
@@ -94,9 +95,23 @@ type mutHit struct {
 	Op      string `json:"op"`
 	Summary string `json:"summary"`
 	Class   string `json:"class"` // finding class of an accepted semantic mutant
+	MClass  string `json:"mclass,omitempty"`
+	PClass  string `json:"pclass,omitempty"`
+	Where   string `json:"where,omitempty"`
+	EFmt    string `json:"efmt,omitempty"`
 	Mutant  string `json:"mutant,omitempty"`
 	Panic   string `json:"panic,omitempty"`
 	Pair    *only  `json:"pair,omitempty"`
+	// two-field mutations: abstract class of both components and whether each of them ALONE changes the parsed form
+	Components []component `json:"components,omitempty"`
+}
+
+type component struct {
+	MClass      string `json:"mclass"`
+	PClass      string `json:"pclass"`
+	Where       string `json:"where"`
+	EFmt        string `json:"efmt"`
+	ChangesView bool   `json:"changes_view"`
 }
 
 type mutOut struct {
@@ -405,17 +420,25 @@ func hash64(s string) uint64 {
 	return h.Sum64()
 }
 
-// methods applicable to a case
+// methods applicable to a case: the abstract attribute "store" selects the DID method whose documents live in that store
 func (w *world) methodsFor(ci caseIn) []string {
 	c := ci.Case
-	all := []string{"nuts", "web"}
-	if c.Fam == "vc" && c.KH == "stable" && c.VM == "issuer" {
-		all = append(all, "jwk")
+	pick := hash64(fmt.Sprintf("%d|%s", w.seed, ci.ID))
+	switch c.Fam {
+	case "vc", "vpsig":
+		if c.Store == "didstore" {
+			return []string{"nuts"}
+		}
+		ms := []string{"web"}
+		if c.Fam == "vc" && c.KH == "stable" && c.VM == "issuer" && (w.in.MethodMode == "all" || pick%4 == 0) {
+			ms = append(ms, "jwk") // did:jwk has no history and no separate store
+		}
+		return ms
 	}
 	if w.in.MethodMode == "all" {
-		return all
+		return []string{"nuts", "web"}
 	}
-	return []string{all[hash64(fmt.Sprintf("%d|%s", w.seed, ci.ID))%uint64(len(all))]}
+	return []string{[]string{"nuts", "web"}[pick%2]}
 }
 
 // ------------------------------------------------------------------------------------------------ vc / vp families
@@ -724,10 +747,14 @@ func findingClass(bd *baseDoc, m mutant) string {
 func (w *world) execMutant(bd *baseDoc, m mutant, mo *mutOut, second *mutant) {
 	mo.Executed++
 	v := w.verifyDoc(bd.Kind, m.Doc)
-	hit := mutHit{Doc: bd.Name, Method: bd.Method, Path: m.Path, Op: m.Op, Summary: m.Summary}
+	hit := mutHit{Doc: bd.Name, Method: bd.Method, Path: m.Path, Op: m.Op, Summary: m.Summary, MClass: m.MClass, PClass: m.PClass, Where: m.Where, EFmt: m.EFmt}
 	if second != nil {
 		hit.Pair = &only{Path: second.Path, Op: second.Op}
 		hit.Summary += " + " + second.Summary
+		for _, x := range []mutant{first(bd, m), *second} {
+			xv, err := view(bd.Kind, x.Doc)
+			hit.Components = append(hit.Components, component{MClass: x.MClass, PClass: x.PClass, Where: x.Where, EFmt: x.EFmt, ChangesView: err != nil || xv != bd.view})
+		}
 	}
 	if mo.Sample == nil {
 		s := hit
@@ -755,14 +782,7 @@ func (w *world) execMutant(bd *baseDoc, m mutant, mo *mutOut, second *mutant) {
 	mo.AcceptedChangedN++
 	hit.Class = findingClass(bd, m)
 	if second != nil {
-		c2 := findingClass(bd, *second)
-		if c2 != hit.Class {
-			if hit.Class == "add-undefined-member" {
-				hit.Class = c2
-			} else if c2 != "add-undefined-member" {
-				hit.Class += "+" + c2
-			}
-		}
+		hit.Class += "+" + findingClass(bd, *second)
 	}
 	hit.Mutant = m.Doc
 	// keep one example per finding class
@@ -774,6 +794,16 @@ func (w *world) execMutant(bd *baseDoc, m mutant, mo *mutOut, second *mutant) {
 	if len(mo.AcceptedChanged) < 8 {
 		mo.AcceptedChanged = append(mo.AcceptedChanged, hit)
 	}
+}
+
+// first returns the single mutant a pair started from (execMutant gets it with the document of the pair)
+func first(bd *baseDoc, pm mutant) mutant {
+	for _, m := range bd.all {
+		if m.Path == pm.Path && m.Op == pm.Op {
+			return m
+		}
+	}
+	return pm
 }
 
 func truncate(s string, n int) string {
